@@ -257,7 +257,15 @@ func (a *Advertised) Conform(r *TypeRef, s *Sel, v interface{}, path string, lis
 		tn, _ := m["ut"].(string)
 		sub, ok := s.OnType[tn]
 		if !ok {
-			return fmt.Sprintf("%s: __typename %q is not a possible type of %s", path, tn, r.Name)
+			// a possible type the query has no fragment for: only the union's own __typename is selected on it
+			possible := false
+			for _, pt := range a.Types[r.Name].PossibleTypes {
+				possible = possible || pt.Name == tn
+			}
+			if !possible {
+				return fmt.Sprintf("%s: __typename %q is not a possible type of %s", path, tn, r.Name)
+			}
+			sub = []*Sel{}
 		}
 		rest := map[string]interface{}{}
 		for k, x := range m {
